@@ -352,6 +352,53 @@ def check_two_instances(chk):
             shutil.rmtree(tmp, ignore_errors=True)
 
 
+def check_adopted_proposal(chk):
+    """an object that has already sampled is given ANOTHER proposal object (the documented manual-resume route `load_flow`, or a plain
+    assignment `aspire.flow = ...`) and samples again with the same settings into the same file: the particles of the new run are
+    weighted under the proposal the file now holds (outside the Lean model's operations: direct oracle only)"""
+    import h5py
+
+    for how in ("load_flow", "assignment"):
+        tmp = tempfile.mkdtemp(prefix="aspire_verif_")
+        try:
+            sess = Session(tmp, seed=31)
+            steps = []
+
+            def look(what):
+                steps.append(what)
+                ob = sess.observe(1)
+                if not ob["consistent"]:
+                    chk.fail("the stored proposal and configuration belong to the stored checkpoint", {"adopted_proposal": how, "steps": list(steps)},
+                             f"after `{steps[-1]}`: file proposal version {ob['flow']}, config sampler {ob['cfg']}, checkpoint {ob['ckpt']} ({ob['why']})",
+                             {"clause": ob["why"], "adopted_proposal": how, "model_predicts": False})
+                    return False
+                return True
+
+            sess.do(("fit", None, False))
+            sess.do(("sample", "smc", 1, True, 0))
+            ok = look("a: fit; sample smc -> file 1")
+            # another object trains another proposal and stores it in file 2
+            other = Session(tmp, seed=32)
+            other.nfit = 5
+            other.do(("fit", 2, False))
+            mu, sg = round(other.a.flow.mu, 9), round(other.a.flow.sigma, 9)
+            sess.version += 1
+            sess.flow_sig[(mu, sg)] = sess.version
+            if how == "load_flow":
+                with h5py.File(sess.path(2), "r") as f:
+                    sess.a.load_flow(f)
+            else:
+                sess.a.flow = other.a.flow
+            sess.do(("sample", "smc", 1, True, 0))
+            ok = ok and look(f"a: adopt the proposal of file 2 by {how}; sample smc -> file 1 (same settings as before)")
+            chk.count("adopted_proposal_scenarios")
+            chk.case(None, f"adopted-proposal-{how}")
+        except Exception as e:   # noqa
+            chk.fail("run total", {"adopted_proposal": how}, repr(e)[:300], {"clause": "raise", "adopted_proposal": how})
+        finally:
+            shutil.rmtree(tmp, ignore_errors=True)
+
+
 def run(chk: core.Check):
     r = np.random.default_rng(chk.seed + 14014)
     quick = chk.tier == "quick"
@@ -419,6 +466,7 @@ def run(chk: core.Check):
     for i in range(0, len(seqs), 100):
         check_sequences(chk, seqs[i:i + 100])
     check_two_instances(chk)
+    check_adopted_proposal(chk)
 
     def search():
         sub = core.Check(chk.pid, chk.tier, chk.seed)
